@@ -106,6 +106,7 @@ type pathState struct {
 	effects []string
 	concrete map[string]uint64 // concrete replay mode: name -> value (nil when symbolic)
 	concreteMode bool
+	budgetOK bool
 }
 
 func newPathState(harness string, item WorkItem, s *Solver, maxSteps int64, unwind int) *pathState {
@@ -464,4 +465,66 @@ func sortedKeys[M ~map[string]V, V any](m M) []string {
 	}
 	sort.Strings(ks)
 	return ks
+}
+
+// concretize forces term t to a concrete value by enumerating its feasible
+// values: the chosen value is recorded in the decision log (N=-1: t==Val
+// taken; N=-2: t!=Val, keep enumerating), so replay is deterministic.
+func (ps *pathState) concretize(t *Term) uint64 {
+	if t.isConst() {
+		return t.val
+	}
+	w := t.sort
+	mkc := func(v uint64) *Term {
+		if w.k == sBool {
+			return mkBool(v == 1)
+		}
+		return &Term{op: "const", sort: w, val: v & mask64(w)}
+	}
+	for n := 0; ; n++ {
+		if ps.pos < len(ps.prefix) {
+			d := ps.prefix[ps.pos]
+			ps.pos++
+			ps.log = append(ps.log, d)
+			c := tEq(t, mkc(uint64(d.Val)))
+			if d.N == -1 {
+				if !d.Forced {
+					ps.addPC(c)
+				}
+				return uint64(d.Val)
+			}
+			ps.addPC(tNot(c))
+			continue
+		}
+		if n > 300 {
+			ps.abort(abUnwound, "concretize: more than 300 values")
+		}
+		v, ok := ps.evalModel(t)
+		if !ok {
+			r, m := ps.solver.CheckWith(true, nil)
+			if r != "sat" {
+				ps.res.Unknowns++
+				ps.abort(abUnsupported, "solver "+r+" in concretize")
+			}
+			ps.model = m
+			v, _ = ps.evalModel(t)
+		}
+		c := tEq(t, mkc(v))
+		r, m2 := ps.solver.CheckWith(true, nil, tNot(c))
+		switch r {
+		case "sat":
+			alt := append(append([]Decision{}, ps.log...), Decision{Val: int(v), N: -2})
+			ps.res.Forks = append(ps.res.Forks, WorkItem{alt, m2})
+		case "unsat":
+		default:
+			ps.res.Unknowns++
+			ps.res.Msg = "solver: " + r
+		}
+		ps.res.SymBranches++
+		ps.log = append(ps.log, Decision{Val: int(v), N: -1, Forced: r == "unsat"})
+		if r != "unsat" {
+			ps.addPC(c)
+		}
+		return v
+	}
 }
